@@ -16,6 +16,8 @@ type Cas struct {
 	// Cache for exists queries since we assume that during the runtime of a build
 	// the cache backend cannot lose a digest (grog does not delete during a build)
 	keyExistsCache sync.Map
+	// Like keyExistsCache but only for digests known to be in the remote cache (mirroring backends)
+	keyStoredRemotelyCache sync.Map
 }
 
 func NewCas(
@@ -30,9 +32,33 @@ func (c *Cas) GetBackend() backends.CacheBackend {
 	return c.backend
 }
 
+// remoteMirror is implemented by backends that write through to a remote cache.
+type remoteMirror interface {
+	ExistsRemote(ctx context.Context, path string, key string) (bool, error)
+}
+
+// isStored reports whether writing the digest can be skipped. For backends that mirror to a
+// remote cache the digest has to exist remotely: a blob that is only in the local cache
+// (earlier build without a remote, failed upload) must still be uploaded, otherwise a target
+// result written to the remote cache would reference a blob that is not there.
+func (c *Cas) isStored(ctx context.Context, digest string) (bool, error) {
+	mirror, isMirror := c.backend.(remoteMirror)
+	if !isMirror {
+		return c.Exists(ctx, digest)
+	}
+	if stored, ok := c.keyStoredRemotelyCache.Load(digest); ok && stored.(bool) {
+		return true, nil
+	}
+	exists, err := mirror.ExistsRemote(ctx, "cas", digest)
+	if err == nil && exists {
+		c.keyStoredRemotelyCache.Store(digest, true)
+	}
+	return exists, err
+}
+
 // Write writes a digest for a given reader
 func (c *Cas) Write(ctx context.Context, digest string, reader io.Reader) error {
-	if exists, err := c.Exists(ctx, digest); exists && err == nil {
+	if exists, err := c.isStored(ctx, digest); exists && err == nil {
 		// If the digest already exists, we don't need to write it again
 		return nil
 	}
@@ -41,6 +67,7 @@ func (c *Cas) Write(ctx context.Context, digest string, reader io.Reader) error 
 	if err == nil {
 		// Mark the digest as existing in case later targets create the same digest
 		c.keyExistsCache.Store(digest, true)
+		c.keyStoredRemotelyCache.Store(digest, true)
 	}
 	return err
 }
